@@ -187,6 +187,17 @@ Theorem C04_responder_sends_justified le sc t b h t' ev :
                memN (t_penalty k) (keys_of (ib_data b)) = false /\ r_tx ev = t_penalty k))).
 Proof. exact (responder_sends_justified le sc t b h t' ev). Qed.
 
+(* 7. recorded as confirmed only at heights of the active chain (the repaired code no longer
+   subtracts with overflow check, so this is no longer needed for abort-freedom; it is the
+   bookkeeping half of "confirmed only in a block of the active chain") *)
+Theorem C04_confirmed_on_active_chain le c h0 boot t0 hist :
+  init c h0 boot = Some t0 -> NoDup (map fst boot) -> fresh_hashes le t0 hist ->
+  Forall not_abort (snd (run le t0 hist)) ->
+  forall k, In k (db_trks (fst (run le t0 hist))) -> t_conf k = true ->
+            mem_uuid (trk_uuid k) (reorged (fst (run le t0 hist))) = false ->
+            t_height k <= gk_height (fst (run le t0 hist)).
+Proof. exact (confirmed_on_active_chain le c h0 boot t0 hist). Qed.
+
 (* 6. a penalty that never confirms is never refunded *)
 Theorem C04_never_completes_unconfirmed txids h t k :
   Inv t -> In k (db_trks t) -> t_conf k = false -> ~ In (trk_uuid k) (completed_list txids h t).
@@ -209,6 +220,7 @@ Print Assumptions C04_rebroadcast_cadence.
 Print Assumptions C04_rebroadcast_restamps_now.
 Print Assumptions C04_resent_every_6th_block.
 Print Assumptions C04_responder_sends_justified.
+Print Assumptions C04_confirmed_on_active_chain.
 Print Assumptions C04_never_completes_unconfirmed.
 
 (* ---------- non-vacuity ---------- *)
@@ -260,3 +272,16 @@ Example C04_ex_rebroadcast_plus_6 :
   ex_run (firstn 3 ex_prefix ++ ex_empties 2000 5) =
   Some (([(106, false)], Some 9, Some 9, 106, [], [(9, InMempoolSince 106)]), true).
 Proof. vm_compute. reflexivity. Qed.
+
+(* the hypotheses of C04_confirmed_on_active_chain are satisfiable: distinct boot hashes, fresh block hashes *)
+Example C04_ex_fresh_hashes :
+  match init ex_cfg 100 ex_boot with
+  | Some t0 => NoDup (map fst ex_boot) /\
+               fresh_hashes true t0 (ex_prefix ++ [(ODisconnect, []); (OConnect 1003 [], [])])
+  | None => False
+  end.
+Proof.
+  vm_compute. split.
+  - repeat (constructor; [intros H; repeat (destruct H as [H|H]; [discriminate|]); exact H|]). constructor.
+  - repeat split; intros H; repeat (destruct H as [H|H]; [discriminate|]); exact H.
+Qed.
